@@ -10,6 +10,9 @@ mod util;
 mod world;
 mod camp;
 mod camp_single;
+mod camp_conc;
+mod conc;
+mod mon_dg;
 mod mon;
 mod mon_lru;
 mod mon_misc;
